@@ -45,8 +45,10 @@ theorem C28_tgen_limits :
     Extracted.perEntryPad = 10 ∧ Extracted.txnKeyLen = Badger.txnKeyLen ∧
     Extracted.badgerPrefixBytes = Badger.badgerPrefix := by decide
 
-/-- the reservation for the end-of-transaction marker as the code has it today -/
-theorem C28_tgen_fin_reserve : Extracted.finReservePad = 10 := by decide
+/-- the reservation for the end-of-transaction marker (since the fix of finding F6 it covers the
+    marker's maximum size: 8 version bytes + 20 decimal digits + 2 meta bytes) and the model's
+    `Db.begin` uses the same number -/
+theorem C28_tgen_fin_reserve : Extracted.finReservePad = 30 ∧ 8 + 20 + 2 ≤ Extracted.finReservePad := by decide
 
 theorem C02_tgen_oracle_ops : op_hasConflict_ts = "<=" ∧ op_cleanup_ts = "<=" := by decide
 theorem C03_tgen_txn_bits : Extracted.bitTxn = Badger.bitTxn ∧ Extracted.bitFinTxn = Badger.bitFinTxn := by decide
